@@ -10,6 +10,7 @@ import LogosModel.Bump
 import LogosModel.Strip
 import LogosModel.Derive
 import LogosModel.Api
+import LogosModel.CertP
 import Std.Data.HashMap
 import LogosModel.Source
 import Std.Data.HashSet
@@ -147,7 +148,7 @@ def certVerdict (c : Case) (fuel : Nat) : String :=
   | none => "UNKNOWN fuel"
   | some h =>
     let C := toCSet c.states.size h
-    if validB G prios D C then s!"OK {h.size} {c.states.size}"
+    if validB G prios D C then s!"OK {h.size} {c.states.size} {if prefixOKB G C then "P" else "noP"}"
     else if !wfB G then "FAIL wf"
     else s!"FAIL {(firstBad G prios C).getD "?"}"
 
@@ -196,6 +197,26 @@ partial def tieSearch (prios : List Nat) (queue : Array (Vec × List Nat)) (i : 
       if viableV Δ' && !acc.2.contains Δ' then (acc.1.push (Δ', b :: w), acc.2.insert Δ') else acc) (queue, seen)
     tieSearch prios queue (i+1) seen (fuel - 1)
   else (none, some seen)
+
+/-- BFS for a shortest extension after which some leaf matches (untrusted; used to build inputs) -/
+partial def completeSearch (prios : List Nat) (queue : Array (Vec × List Nat)) (i : Nat)
+    (seen : Std.HashSet Vec) (fuel : Nat) : Option (List Nat) :=
+  if fuel = 0 then none else
+  if h : i < queue.size then
+    let (Δ, w) := queue[i]
+    if (win prios Δ).isSome then some w.reverse else
+    let (queue, seen) := (List.range 256).foldl (fun (acc : Array (Vec × List Nat) × Std.HashSet Vec) b =>
+      let Δ' := derivV b Δ
+      if viableV Δ' && !acc.2.contains Δ' then (acc.1.push (Δ', b :: w), acc.2.insert Δ') else acc) (queue, seen)
+    completeSearch prios queue (i+1) seen (fuel - 1)
+  else none
+
+def completeAnswer (c : Case) (pre : List Nat) : String :=
+  if c.nodump || c.hasLook then "NONE" else
+  let Δ := derivsV pre c.res
+  match completeSearch c.prios.toList #[(Δ, [])] 0 (({} : Std.HashSet Vec).insert Δ) 3000 with
+  | some w => hexOf w
+  | none => "NONE"
 
 def tieVerdict (c : Case) : String :=
   if c.nodump then "NODUMP" else
@@ -293,6 +314,7 @@ def answer (c : Case) (q : List String) : String :=
   | ["PSPEC", hex] => specPStr c (unhex hex)
   | ["LEX", "t", hex] => traceStr c false (unhex hex)
   | ["UTF8CLOSED"] => " ".intercalate (c.hirs.toList.map utf8Verdict)
+  | ["COMPLETE", hex] => completeAnswer c (unhex hex)
   | ["TIE"] => tieVerdict c
   | ["EQUIV", i, j] => equivVerdict c i.toNat! j.toNat!
   | ["MATCH", i, hex] => matchVerdict c i.toNat! (unhex hex)
